@@ -88,30 +88,44 @@ func errResult(err error) result {
 
 const modPrefix = "wa-lang.org/wa/"
 
-// panicSite: the innermost frame of /repo's code below the runtime's panic machinery.
+// panicSite: the frame of /repo's code that raised the ORIGINAL panic: the first /repo frame below the
+// outermost runtime panic frame on the stack (parsers re-panic from a deferred recover handler, which
+// puts a second runtime.gopanic + the handler above the original one).
 func panicSite() string {
-	pcs := make([]uintptr, 256)
+	pcs := make([]uintptr, 512)
 	n := runtime.Callers(2, pcs)
 	frames := runtime.CallersFrames(pcs[:n])
-	seenPanic := false
+	type fr struct {
+		fn, file string
+		line     int
+	}
+	var all []fr
 	for {
-		fr, more := frames.Next()
-		fn := fr.Function
-		if strings.HasPrefix(fn, "runtime.") {
-			if strings.Contains(fn, "panic") || strings.Contains(fn, "sigpanic") {
-				seenPanic = true
-			}
-		} else if seenPanic && strings.HasPrefix(fn, modPrefix) && !strings.Contains(fn, "zz_verif") {
-			file := fr.File
-			if i := strings.Index(file, "/internal/"); i >= 0 {
-				file = file[i+1:]
-			} else if i := strings.Index(file, "/api/"); i >= 0 {
-				file = file[i+1:]
-			}
-			return fmt.Sprintf("%s:%d:%s", file, fr.Line, strings.TrimPrefix(fn, modPrefix))
-		}
+		f, more := frames.Next()
+		all = append(all, fr{f.Function, f.File, f.Line})
 		if !more {
 			break
+		}
+	}
+	lastPanic := -1
+	for i, f := range all {
+		if strings.HasPrefix(f.fn, "runtime.") && (strings.Contains(f.fn, "anic") || strings.Contains(f.fn, "sigpanic")) {
+			lastPanic = i
+		}
+	}
+	for i := lastPanic + 1; i < len(all); i++ {
+		f := all[i]
+		if strings.HasSuffix(f.fn, ".assert") || strings.HasSuffix(f.fn, ".unreachable") {
+			continue // assertion helpers: the caller is the site
+		}
+		if strings.HasPrefix(f.fn, modPrefix) && !strings.Contains(f.fn, "zz_verif") {
+			file := f.file
+			if j := strings.Index(file, "/internal/"); j >= 0 {
+				file = file[j+1:]
+			} else if j := strings.Index(file, "/api/"); j >= 0 {
+				file = file[j+1:]
+			}
+			return fmt.Sprintf("%s:%d:%s", file, f.line, strings.TrimPrefix(f.fn, modPrefix))
 		}
 	}
 	return "?:0:?"
@@ -237,11 +251,11 @@ func typeCheck(filename string, content []byte) result {
 
 // time limit: base + perKB per 1024 bytes, times scale.
 func limitFor(ep string, n int, scale float64) time.Duration {
-	base := 4 * time.Second
-	perKB := 40 * time.Millisecond // 25 KB/s: two to three orders of magnitude below normal speed
+	base := 2 * time.Second
+	perKB := 20 * time.Millisecond // 50 KiB/s: two to three orders of magnitude below normal speed
 	if strings.HasPrefix(ep, "load") {
-		base = 10 * time.Second
-		perKB = 100 * time.Millisecond
+		base = 8 * time.Second // loads and type-checks the runtime package first (0.2-0.5 s)
+		perKB = 60 * time.Millisecond
 	}
 	d := base + time.Duration(n/1024+1)*perKB
 	return time.Duration(float64(d) * scale)
@@ -489,16 +503,13 @@ func same(a, b fres) bool {
 }
 
 // observedFormat: which branches of format.File are consistent with what FormatCode really did.
-// A: same result as the Wa formatter, Z: same as the Wz formatter, P: text returned unchanged,
-// X: a panic, R: an error that neither formatter produces.
+// A: same result (text, error or panic) as the Wa formatter, Z: same as the Wz formatter, P: text returned
+// unchanged, X: a panic that neither formatter produces, R: an error that neither formatter produces.
 func observedFormat(name string, code []byte) string {
 	real := try(func() ([]byte, error) {
 		s, err := api.FormatCode(name, string(code))
 		return []byte(s), err
 	})
-	if real.panicked != "" {
-		return "X:" + real.panicked
-	}
 	// what format.File would hand back to FormatCode on each branch
 	branch := func(f func([]byte) ([]byte, error)) fres {
 		r := try(func() ([]byte, error) { return f(code) })
@@ -516,10 +527,13 @@ func observedFormat(name string, code []byte) string {
 	if same(real, wz) {
 		s += "Z"
 	}
-	if real.err == nil && bytes.Equal(real.out, code) {
+	if real.panicked == "" && real.err == nil && bytes.Equal(real.out, code) {
 		s += "P"
 	}
 	if s == "" {
+		if real.panicked != "" {
+			return "X:" + real.panicked // a panic that neither formatter produces: the dispatch's own
+		}
 		if real.err != nil {
 			return "R:" + msgClass(real.err.Error())
 		}
